@@ -1,16 +1,5 @@
 // L4 (exploration): breadth-first enumeration of the derivatives of a term
 
-// BfsQueue: the queue holds pending elements, the set every element ever pushed
-pub open spec fn q_wf<T>(q: BfsQueue<T>) -> bool {
-    (forall|i: int| 0 <= i < q.queue@.len() ==> q.set@.contains(#[trigger] q.queue@[i]))
-        && q.queue@.no_duplicates()
-}
-
-// x was pushed and has been popped
-pub open spec fn q_done<T>(q: BfsQueue<T>, x: T) -> bool {
-    q.set@.contains(x) && !q.queue@.contains(x)
-}
-
 // x denotes the left quotient of e0 by some word (x is an iterated derivative of e0)
 pub open spec fn reach(e0: RegLan, x: RegLan) -> bool {
     exists|u: Seq<u32>| #[trigger] quot_by(x.expr, e0.expr, u)
